@@ -104,6 +104,10 @@ pub fn items(env: &Env, full: bool) -> Vec<Item> {
     let q = format!("context-id={}&limit=2", env.ctx_a);
     add("cat-ctx", Req::new("GET", &format!("/?{}", q)).header("Accept", b"text/event-stream"), Kind::Cat { query: Some(q), valid: true, sse: true });
     add("cat-tail", Req::new("GET", "/?tail=true"), Kind::Cat { query: Some("tail=true".into()), valid: true, sse: false });
+    // options in combination (seed C13-r7: a "bounded one-shot read" shortcut that forgets `tail`)
+    add("cat-tail-limit", Req::new("GET", "/?tail=true&limit=1"), Kind::Cat { query: Some("tail=true&limit=1".into()), valid: true, sse: false });
+    let q = format!("tail=true&follow=false&limit=2&context-id={}", env.ctx_a);
+    add("cat-tail-limit-ctx-sse", Req::new("GET", &format!("/?{}", q)).header("Accept", b"text/event-stream"), Kind::Cat { query: Some(q), valid: true, sse: true });
     let q = format!("context-id={}&last-id={}", env.ctx_a, env.f0);
     add("cat-ctx-lastid", Req::new("GET", &format!("/?{}", q)), Kind::Cat { query: Some(q), valid: true, sse: false });
     add("cat-zero-ctx", Req::new("GET", "/?context-id=0000000000000000000000000&limit=3"), Kind::Cat { query: Some("context-id=0000000000000000000000000&limit=3".into()), valid: true, sse: false });
